@@ -40,6 +40,7 @@ def c01_suites(tier, seed):
     s.append(("rand-buckets", suite_random(seed + 2, 80 if q else 2000, {"families": ["tiny", "short", "deep"], "p_bucket_ops": 0.4, "nest": 4}, "rb")))
     s.append(("rand-4096", suite_random(seed + 3, 20 if q else 500, {"families": ["mid", "tiny", "deep"], "pagesize": 4096, "ops": 200, "txs": 4}, "r4")))
     # directed enumerations: every contiguous delete range over 1-, 2-, 3-level trees
+    s.append(("growth", hists_of(jgen.gen_growth(seed, 1 if q else 8))))
     s.append(("enum-2leaf", hists_of(jgen.gen_range_deletes(5, klen=8, vlen=300, prefix="e5"))))
     s.append(("enum-12", hists_of(jgen.gen_range_deletes(12, prefix="e12", reinsert=True))))
     if q:
@@ -105,6 +106,12 @@ def c03_suites(tier, seed):
     return [("readers", hists_of(jgen.gen_c03(seed, 60 if q else 2000, k_readers=4 if q else 8)))]
 
 
+def c10_suites(tier, seed):
+    q = tier == "quick"
+    return [("soak", hists_of(jgen.gen_c10(seed, 9 if q else 48, ntx=100 if q else 1500))),
+            ("readers", hists_of(jgen.gen_c03(seed + 3, 20 if q else 500, k_readers=2)))]
+
+
 C16_PAGESIZES = [1024, 1032, 2048, 3000, 4096, 5000, 16384, 65536, 1048576]
 
 
@@ -127,8 +134,9 @@ def c16_suites(tier, seed):
 
 
 PROPS = {
-    "C03": {"suites": c03_suites, "level": "other", "corpus": ["C03"]},
-    "C06": {"suites": c06_suites, "level": "other", "corpus": ["C06"]},
+    "C03": {"suites": c03_suites, "level": "proof", "corpus": ["C03"]},
+    "C10": {"suites": c10_suites, "level": "proof", "corpus": ["C10"]},
+    "C06": {"suites": c06_suites, "level": "proof", "corpus": ["C06"]},
     "C16": {"suites": c16_suites, "level": "other", "corpus": ["C16"]},
     "C05": {"suites": c05_suites, "level": "other", "corpus": ["C05", "C01"]},
     "C01": {"suites": c01_suites, "level": "other", "corpus": ["C01", "C05", "C08", "C07"]},
